@@ -37,12 +37,14 @@ type entry struct {
 }
 
 func (e entry) String() string {
-	return fmt.Sprintf("% 4d %s %-56s %2d %-64x",
+	// The key itself is not listed: String is what fmt uses for a Keytab (and for anything that holds one, such as the
+	// service settings) when it is printed or logged.
+	return fmt.Sprintf("% 4d %s %-56s %2d %d bytes",
 		e.KVNO8,
 		e.Timestamp.Format("02/01/06 15:04:05"),
 		e.Principal.String(),
 		e.Key.KeyType,
-		e.Key.KeyValue,
+		len(e.Key.KeyValue),
 	)
 }
 
@@ -115,8 +117,8 @@ func newEntry() entry {
 
 func (kt Keytab) String() string {
 	var s string
-	s = `KVNO Timestamp         Principal                                                ET Key
----- ----------------- -------------------------------------------------------- -- ----------------------------------------------------------------
+	s = `KVNO Timestamp         Principal                                                ET Key size
+---- ----------------- -------------------------------------------------------- -- --------
 `
 	for _, entry := range kt.Entries {
 		s += entry.String() + "\n"
